@@ -418,6 +418,8 @@ func gen(a vh.Args) {
 			w.Printf("%s\n", caseLineIDs(fmt.Sprintf("bdk%d", cut), cut, "disk", rid, from, dcmds))
 		}
 	}
+	// the call site of the start-up cleanup: a real NodeHost
+	w.Printf("e2e0 cut=-1 | E2E-STARTUP\n")
 	dseqs := diskScenarios()
 	for len(dseqs) < ndisk {
 		dseqs = append(dseqs, randomDiskSeq(r, 6))
@@ -449,6 +451,16 @@ func run(a vh.Args) {
 	out := vh.Create(a.Out + "/impl.obs")
 	defer out.Close()
 	for _, line := range vh.ReadLines(a.Cases) {
+		if strings.HasSuffix(line, "| E2E-STARTUP") {
+			id := strings.Fields(line)[0]
+			l, viol := runStartupE2E(id)
+			out.Printf("%s\n", l)
+			st.Case("e2e-startup", true, line)
+			for _, v := range viol {
+				st.Violation(id, v)
+			}
+			continue
+		}
 		c := parseCase(line)
 		lines, _, inside, viol := runCase(c, st.Distribution)
 		for _, l := range lines {
